@@ -260,14 +260,33 @@ def invariants(E, m, S, label="cross-references"):
 DOC_EXC = (ValueError, KeyError, TypeError)
 
 
-def _try(S, name, f, exc=DOC_EXC, **args):
+IDENT = lambda ref: None  # noqa: E731   (operation documented not to change the model's content)
+
+
+def _try(S, name, f, exc=DOC_EXC, ref=None, **args):
     """run one operation; any exception it raises ends the operation (and, in a C03 block, the block).
-    The properties checked here constrain the *state afterwards*, whatever the exception type."""
+    The properties checked here constrain the *state afterwards*, whatever the exception type.
+    ref: closure applying the documented effect to the reference model (C02); None = no reference semantics."""
     try:
         out = f()
-        S.log.append((name, args, None))
-        return out
+        ok = True
     except Exception as e:
+        ok = False
+        err = e
+    if ok:
+        S.log.append((name, args, None))
+        R = getattr(S, "ref", None)
+        if R is not None and R.valid:
+            if ref is None:
+                R.valid = False
+            else:
+                ref(R)          # outside the try: an error here is ours
+        return out
+    e = err
+    if True:
+        R = getattr(S, "ref", None)
+        if R is not None and not isinstance(e, exc):
+            R.valid = False
         S.log.append((name, args, type(e).__name__))
         if not isinstance(e, exc):
             S.undocumented = getattr(S, "undocumented", []) + [(name, type(e).__name__)]
@@ -286,30 +305,30 @@ def _rxn(E, m, name="target", pool=("R1", "DM_B")):
 def op_lower_bound(E, m, S):
     r = _rxn(E, m)
     x = E.real(S.tag("x"), -B, B)
-    _try(S, "lower_bound=", lambda: setattr(r, "lower_bound", x), r=r.id)
+    _try(S, "lower_bound=", lambda: setattr(r, "lower_bound", x), r=r.id, ref=lambda R, i=r.id: R.set_bounds(i, lb=x))
 
 
 def op_upper_bound(E, m, S):
     r = _rxn(E, m)
     x = E.real(S.tag("x"), -B, B)
-    _try(S, "upper_bound=", lambda: setattr(r, "upper_bound", x), r=r.id)
+    _try(S, "upper_bound=", lambda: setattr(r, "upper_bound", x), r=r.id, ref=lambda R, i=r.id: R.set_bounds(i, ub=x))
 
 
 def op_bounds(E, m, S):
     r = _rxn(E, m)
     x, y = E.real(S.tag("x"), -B, B), E.real(S.tag("y"), -B, B)
-    _try(S, "bounds=", lambda: setattr(r, "bounds", (x, y)), r=r.id)
+    _try(S, "bounds=", lambda: setattr(r, "bounds", (x, y)), r=r.id, ref=lambda R, i=r.id: R.set_bounds(i, x, y))
 
 
 def op_bounds_inf(E, m, S):
     r = _rxn(E, m)
     k = E.pick(S.tag("inf"), [(float("-inf"), float("inf")), (0.0, float("inf")), (float("-inf"), 0.0)])
-    _try(S, "bounds=inf", lambda: setattr(r, "bounds", k), r=r.id)
+    _try(S, "bounds=inf", lambda: setattr(r, "bounds", k), r=r.id, ref=lambda R, i=r.id: R.set_bounds(i, k[0], k[1]))
 
 
 def op_knock_out(E, m, S):
     r = _rxn(E, m)
-    _try(S, "Reaction.knock_out", r.knock_out, r=r.id)
+    _try(S, "Reaction.knock_out", r.knock_out, r=r.id, ref=lambda R, i=r.id: R.set_bounds(i, 0, 0))
 
 
 def op_gene_knock_out(E, m, S):
@@ -329,31 +348,31 @@ def op_objective(E, m, S):
     r = _rxn(E, m, pool=("R1", "R2", "DM_B"))
     how = E.pick(S.tag("objective"), ["reaction", "id", "index", "dict", "Objective", "bad-id"])
     if how == "reaction":
-        _try(S, "objective=reaction", lambda: setattr(m, "objective", r), r=r.id)
+        _try(S, "objective=reaction", lambda: setattr(m, "objective", r), ref=IDENT, r=r.id)
     elif how == "id":
-        _try(S, "objective=id", lambda: setattr(m, "objective", r.id), r=r.id)
+        _try(S, "objective=id", lambda: setattr(m, "objective", r.id), ref=IDENT, r=r.id)
     elif how == "index":
-        _try(S, "objective=index", lambda: setattr(m, "objective", m.reactions.index(r)), r=r.id)
+        _try(S, "objective=index", lambda: setattr(m, "objective", m.reactions.index(r)), ref=IDENT, r=r.id)
     elif how == "dict":
         x = E.real(S.tag("c"), -5, 5)
         other = m.reactions[0]
-        _try(S, "objective=dict", lambda: setattr(m, "objective", {r: x, other: -1} if other is not r else {r: x}), r=r.id)
+        _try(S, "objective=dict", lambda: setattr(m, "objective", {r: x, other: -1} if other is not r else {r: x}), ref=IDENT, r=r.id)
     elif how == "Objective":
         _try(S, "objective=Objective", lambda: setattr(m, "objective", m.problem.Objective(
-            2.0 * r.flux_expression, direction="min")), r=r.id)
+            2.0 * r.flux_expression, direction="min")), r=r.id, ref=IDENT)
     else:
-        _try(S, "objective=bad-id", lambda: setattr(m, "objective", "nope"))
+        _try(S, "objective=bad-id", lambda: setattr(m, "objective", "nope"), ref=IDENT)
 
 
 def op_objective_coefficient(E, m, S):
     r = _rxn(E, m, pool=("R1", "DM_B"))
     x = E.real(S.tag("c"), -5, 5)
-    _try(S, "objective_coefficient=", lambda: setattr(r, "objective_coefficient", x), r=r.id)
+    _try(S, "objective_coefficient=", lambda: setattr(r, "objective_coefficient", x), ref=IDENT, r=r.id)
 
 
 def op_direction(E, m, S):
     d = E.pick(S.tag("direction"), ["min", "max", "maximize", "bogus"])
-    _try(S, "objective_direction=", lambda: setattr(m, "objective_direction", d), d=d)
+    _try(S, "objective_direction=", lambda: setattr(m, "objective_direction", d), ref=IDENT, d=d)
 
 
 def op_add_metabolites(E, m, S):
@@ -377,20 +396,24 @@ def op_add_metabolites(E, m, S):
         k = "nope"
     if k is None:
         return
-    _try(S, "add_metabolites", lambda: r.add_metabolites({k: x}, combine=combine), r=r.id, key=key, combine=combine)
+    kid = k if isinstance(k, str) else k.id
+    _try(S, "add_metabolites", lambda: r.add_metabolites({k: x}, combine=combine), r=r.id, key=key, combine=combine,
+         ref=lambda R, i=r.id: R.add_metabolites(i, kid, x, combine))
 
 
 def op_subtract_metabolites(E, m, S):
     r = _rxn(E, m, pool=("R1",))
     how = E.pick(S.tag("what"), ["all", "one"])
     if how == "all":
-        _try(S, "subtract_metabolites(all)", lambda: r.subtract_metabolites(r.metabolites), r=r.id)
+        _try(S, "subtract_metabolites(all)", lambda: r.subtract_metabolites(r.metabolites), r=r.id,
+             ref=lambda R, i=r.id: R.rxn[i]["mets"].clear())
     else:
         mets = list(r._metabolites)
         if not mets:
             return
         x = E.real(S.tag("x"), -4, 4)
-        _try(S, "subtract_metabolites(one)", lambda: r.subtract_metabolites({mets[0]: x}), r=r.id)
+        _try(S, "subtract_metabolites(one)", lambda: r.subtract_metabolites({mets[0]: x}), r=r.id,
+             ref=lambda R, i=r.id, mid=mets[0].id: R.add_metabolites(i, mid, -x, True))
 
 
 def op_imul(E, m, S):
@@ -400,7 +423,7 @@ def op_imul(E, m, S):
     def f():
         rr = r
         rr *= k
-    _try(S, "*=", f, r=r.id, k=k)
+    _try(S, "*=", f, r=r.id, k=k, ref=lambda R, i=r.id: R.scale(i, k))
 
 
 def op_iadd(E, m, S):
@@ -418,7 +441,10 @@ def op_iadd(E, m, S):
     def f():
         rr = r
         rr += o
-    _try(S, "+=", f, r=r.id, other=other)
+    omets = {mm.id: c for mm, c in o._metabolites.items()}
+    orule = "live" if (o is r or (o.id in m.reactions and m.reactions.get_by_id(o.id) is o)) else "g9"
+    _try(S, "+=", f, r=r.id, other=other,
+         ref=lambda R, i=r.id, oid=o.id: R.combine(i, omets, (R.rxn[oid]["rule"] if orule == "live" else orule), 1))
 
 
 def op_isub(E, m, S):
@@ -430,7 +456,11 @@ def op_isub(E, m, S):
     def f():
         rr = r
         rr -= o
-    _try(S, "-=", f, r=r.id)
+    omets = {mm.id: c for mm, c in o._metabolites.items()}
+    _try(S, "-=", f, r=r.id, ref=lambda R, i=r.id: R.combine(i, omets, None, -1))
+
+
+RULE_TREES = {"": None, "g1": "g1", "g7 or g1": ("or", "g7", "g1"), "(g2 and": None}     # malformed text => empty rule
 
 
 def op_rule(E, m, S):
@@ -438,9 +468,10 @@ def op_rule(E, m, S):
     s = E.pick(S.tag("rule"), ["", "g1", "g7 or g1", "(g2 and"])
     how = E.pick(S.tag("via"), ["gene_reaction_rule", "gpr"])
     if how == "gpr":
-        _try(S, "gpr=", lambda: setattr(r, "gpr", GPR.from_string(s)), r=r.id, rule=s)
+        _try(S, "gpr=", lambda: setattr(r, "gpr", GPR.from_string(s)), r=r.id, rule=s, ref=lambda R, i=r.id: R.set_rule(i, RULE_TREES[s]))
     else:
-        _try(S, "gene_reaction_rule=", lambda: setattr(r, "gene_reaction_rule", s), r=r.id, rule=s)
+        _try(S, "gene_reaction_rule=", lambda: setattr(r, "gene_reaction_rule", s), r=r.id, rule=s,
+             ref=lambda R, i=r.id: R.set_rule(i, RULE_TREES[s]))
 
 
 def op_add_reactions(E, m, S):
@@ -450,7 +481,7 @@ def op_add_reactions(E, m, S):
     kind = E.pick(S.tag("kind"), kinds)
     if kind == "previously-removed":
         r = S.removed[-1]
-        _try(S, "add_reactions", lambda: m.add_reactions([r]), kind=kind)
+        _try(S, "add_reactions", lambda: m.add_reactions([r]), kind=kind)        # no reference: the object kept its own state
         return
     if kind in ("new", "new-with-new-gene", "uses-copy-of-met"):
         r = Reaction(S.tag("NEW"), lower_bound=E.real(S.tag("lb"), -B, 0), upper_bound=E.real(S.tag("ub"), 0, B))
@@ -474,7 +505,15 @@ def op_add_reactions(E, m, S):
     else:
         r = Reaction(m.reactions[0].id if len(m.reactions) else "X")
         r.add_metabolites({Metabolite("Q", compartment="c"): 1})
-    _try(S, "add_reactions", lambda: m.add_reactions([r]), kind=kind)
+    rmets = {mm.id: c for mm, c in r._metabolites.items()}
+    rrule = {"new-with-new-gene": ("and", "g1", "g9")}.get(kind)
+    if kind == "copy-of-R1":
+        _try(S, "add_reactions", lambda: m.add_reactions([r]), kind=kind, ref=IDENT)       # same id: ignored
+    elif kind == "id-with-blank":
+        _try(S, "add_reactions", lambda: m.add_reactions([r]), kind=kind)
+    else:
+        _try(S, "add_reactions", lambda: m.add_reactions([r]), kind=kind,
+             ref=lambda R: R.add_reaction(r.id, rmets, r.lower_bound, r.upper_bound, rrule))
 
 
 def op_remove_reactions(E, m, S):
@@ -483,10 +522,12 @@ def op_remove_reactions(E, m, S):
     orphans = E.flag(S.tag("remove_orphans"))
     via = E.pick(S.tag("via"), ["model", "remove_from_model"])
     if via == "remove_from_model":
-        _try(S, "Reaction.remove_from_model", lambda: r.remove_from_model(remove_orphans=orphans), r=r.id, orphans=orphans)
+        _try(S, "Reaction.remove_from_model", lambda: r.remove_from_model(remove_orphans=orphans), r=r.id, orphans=orphans,
+             ref=lambda R, i=r.id: R.remove_reaction(i, orphans))
     else:
         a = {"object": r, "id": r.id, "unknown": "nope"}[arg]
-        _try(S, "remove_reactions", lambda: m.remove_reactions([a], remove_orphans=orphans), r=r.id, arg=arg, orphans=orphans)
+        _try(S, "remove_reactions", lambda: m.remove_reactions([a], remove_orphans=orphans), r=r.id, arg=arg, orphans=orphans,
+             ref=(IDENT if arg == "unknown" else (lambda R, i=r.id: R.remove_reaction(i, orphans))))
     if r.id not in m.reactions and not m._contexts:
         S.removed = getattr(S, "removed", []) + [r]
 
@@ -495,7 +536,8 @@ def op_add_model_metabolites(E, m, S):
     kind = E.pick(S.tag("kind"), ["new", "existing-id", "empty-id"])
     met = {"new": Metabolite(S.tag("MM"), compartment="c"), "existing-id": Metabolite(m.metabolites[0].id if len(m.metabolites) else "A"),
            "empty-id": Metabolite("")}[kind]
-    _try(S, "add_metabolites(model)", lambda: m.add_metabolites([met]), kind=kind)
+    _try(S, "add_metabolites(model)", lambda: m.add_metabolites([met]), kind=kind,
+         ref=lambda R: (R.mets.append(met.id) if met.id not in R.mets else None))
 
 
 def op_remove_metabolites(E, m, S):
@@ -505,10 +547,11 @@ def op_remove_metabolites(E, m, S):
     destructive = E.flag(S.tag("destructive"))
     via = E.pick(S.tag("via"), ["model", "remove_from_model"])
     if via == "model":
-        _try(S, "remove_metabolites", lambda: m.remove_metabolites([met], destructive=destructive), met=met.id, destructive=destructive)
+        _try(S, "remove_metabolites", lambda: m.remove_metabolites([met], destructive=destructive), met=met.id, destructive=destructive,
+             ref=lambda R, i=met.id: R.remove_metabolite(i, destructive))
     else:
         _try(S, "Metabolite.remove_from_model", lambda: met.remove_from_model(destructive=destructive), met=met.id,
-             destructive=destructive)
+             destructive=destructive, ref=lambda R, i=met.id: R.remove_metabolite(i, destructive))
 
 
 def op_add_boundary(E, m, S):
@@ -539,18 +582,18 @@ def op_cons_vars(E, m, S):
         S.user_vars.add(vn)
         S.user_cons.add(cn)
     if what == "add":
-        _try(S, "add_cons_vars", add)
+        _try(S, "add_cons_vars", add, ref=IDENT)
     elif what == "add-remove":
-        _try(S, "add_cons_vars", add)
+        _try(S, "add_cons_vars", add, ref=IDENT)
 
         def rem():
             m.remove_cons_vars([c, v])
             m.solver.update()
             S.user_vars.discard(vn)
             S.user_cons.discard(cn)
-        _try(S, "remove_cons_vars", rem)
+        _try(S, "remove_cons_vars", rem, ref=IDENT)
     else:
-        _try(S, "add_cons_vars", add)
+        _try(S, "add_cons_vars", add, ref=IDENT)
         dup = m.problem.Variable(vn, lb=0, ub=1)
 
         def adddup():
@@ -564,7 +607,8 @@ def op_remove_genes(E, m, S):
         return
     g = m.genes[E.choice(S.tag("gene"), min(3, len(m.genes)))]
     rr = E.flag(S.tag("remove_reactions"))
-    _try(S, "remove_genes", lambda: remove_genes(m, [g], remove_reactions=rr), g=g.id, remove_reactions=rr)
+    _try(S, "remove_genes", lambda: remove_genes(m, [g], remove_reactions=rr), g=g.id, remove_reactions=rr,
+         ref=lambda R, i=g.id: R.remove_gene(i, rr))
 
 
 def op_rename_genes(E, m, S):
@@ -573,7 +617,8 @@ def op_rename_genes(E, m, S):
     g = m.genes[0]
     to = E.pick(S.tag("to"), ["new", "existing"])
     tgt = "g_new" if to == "new" or len(m.genes) < 2 else m.genes[1].id
-    _try(S, "rename_genes", lambda: rename_genes(m, {g.id: tgt}), g=g.id, to=to)
+    _try(S, "rename_genes", lambda: rename_genes(m, {g.id: tgt}), g=g.id, to=to,
+         ref=(lambda R, i=g.id: R.rename_gene(i, tgt)) if to == "new" or len(m.genes) < 2 else None)
 
 
 def op_medium(E, m, S):
@@ -589,7 +634,8 @@ def op_rename_reaction(E, m, S):
     r = _rxn(E, m, pool=("R1", "DM_B"))
     to = E.pick(S.tag("to"), ["new", "existing", "non-string"])
     val = {"new": S.tag("REN"), "existing": m.reactions[0].id, "non-string": 7}[to]
-    _try(S, "reaction.id=", lambda: setattr(r, "id", val), r=r.id, to=to)
+    _try(S, "reaction.id=", lambda: setattr(r, "id", val), r=r.id, to=to,
+         ref=(lambda R, i=r.id: R.rename_reaction(i, val)) if to == "new" else IDENT)
 
 
 def op_rename_metabolite(E, m, S):
@@ -598,7 +644,8 @@ def op_rename_metabolite(E, m, S):
     met = m.metabolites[0]
     to = E.pick(S.tag("to"), ["new", "existing"])
     val = S.tag("MREN") if to == "new" or len(m.metabolites) < 2 else m.metabolites[1].id
-    _try(S, "metabolite.id=", lambda: setattr(met, "id", val), met=met.id, to=to)
+    _try(S, "metabolite.id=", lambda: setattr(met, "id", val), met=met.id, to=to,
+         ref=(lambda R, i=met.id: R.rename_metabolite(i, val)) if (to == "new" or len(m.metabolites) < 2) else IDENT)
 
 
 def op_build_from_string(E, m, S):
@@ -621,7 +668,7 @@ def op_groups(E, m, S):
 
 
 def op_repair(E, m, S):
-    _try(S, "repair", m.repair)
+    _try(S, "repair", m.repair, ref=IDENT)
 
 
 def op_copy(E, m, S):
